@@ -54,9 +54,23 @@ func (s Sort) IsArray() bool      { return strings.HasPrefix(string(s), "(Array 
 
 // ArrayElem returns the element sort of an array sort whose index is BV64.
 func (s Sort) ArrayElem() Sort {
-	p := "(Array (_ BitVec 64) "
-	if strings.HasPrefix(string(s), p) {
-		return Sort(strings.TrimSuffix(strings.TrimPrefix(string(s), p), ")"))
+	if !strings.HasPrefix(string(s), "(Array ") {
+		return ""
+	}
+	// (Array <index> <elem>): skip the index sort (balanced parentheses)
+	body := string(s)[len("(Array ") : len(s)-1]
+	depth := 0
+	for i := 0; i < len(body); i++ {
+		switch body[i] {
+		case '(':
+			depth++
+		case ')':
+			depth--
+		case ' ':
+			if depth == 0 {
+				return Sort(body[i+1:])
+			}
+		}
 	}
 	return ""
 }
